@@ -75,6 +75,7 @@ def _items():
         ("unserialisable-dict-with-set", lambda: {"jsonrpc": "2.0", "id": 1, "method": "m", "params": {"s": {1, 2}}}, None),
         ("unserialisable-model", lambda: _Boom(), None),
         ("unserialisable-bad-repr", lambda: _BadRepr(), None),
+        ("unserialisable-str-lone-surrogate", lambda: '{"jsonrpc":"2.0","id":1,"method":"m","params":{"s":"\ud800"}}', None),
         ("unserialisable-too-deep-dict", lambda: {"jsonrpc": "2.0", "id": 1, "method": "m", "params": {"d": _deep(5000)}}, None),
     ]
     return table
